@@ -1,2 +1,3 @@
+pub mod client;
 pub mod pdu;
 pub mod server;
